@@ -861,7 +861,10 @@ func (handler *Handler) QueryResponseHandler(ctx context.Context, packet *Packet
 					return err
 				}
 				output = append(output, fieldDataPacket)
-				if fieldDataPacket.IsEOF() {
+				// The rows end with an EOF packet or, with CLIENT_DEPRECATE_EOF, an OK packet that carries the EOF
+				// header. IsEOF also accepts an OK packet with the 0x00 header, which is what a row looks like
+				// whose first column is the empty string.
+				if fieldDataPacket.data[0] == EOFPacket && (fieldDataPacket.GetPacketPayloadLength() < 9 || handler.Capabilities.IsClientDeprecateEOF()) {
 					dataLog.Debugln("Empty result set")
 					break
 				}
